@@ -25,6 +25,7 @@ EXPLANATION = (
 ASSUMPTIONS = [
     "Message::into_wire_bytes / to_vec emit 48 + len(query) + len(body) bytes (C01 emission-normal-form)",
     "one tungstenite Binary message is sent as one WebSocket message",
+    "tungstenite refuses a frame (its header of up to 14 bytes included) that does not fit WebSocketConfig.max_write_buffer_size",
 ]
 
 
@@ -182,6 +183,42 @@ def run(facts, R):
             R.check(none or le, "boundary-table", co.path, "Ok-row",
                     "check_outbound accepts on a path guarded by neither `no limit` nor `size <= limit`; guards: %s" % texts(fs), s.get("span"),
                     "no limit" if none else "size <= limit")
+
+    # ---------------- the transport below the guard refuses nothing the guard admitted: tungstenite rejects (WriteBufferFull, the
+    # writer task ends, the connection closes) a frame - its 2..14 header bytes included - that does not fit `max_write_buffer_size`,
+    # and back-pressures on `write_buffer_size`.  Every WebSocketConfig built in the crate leaves the outbound fields at
+    # tungstenite's defaults / usize::MAX, or sets max_write_buffer_size to at least the assumed limit plus 14 header bytes
+    WSCFG = "tokio_tungstenite::tungstenite::protocol::WebSocketConfig"
+    n_cfg = 0
+    from analysis.guards import struct_constructions as _sc
+    for b_, i_, j_, st_ in _sc(facts, WSCFG):
+        if i_ not in b_.live_blocks():
+            continue
+        n_cfg += 1
+        s_ = Sym(b_)
+        ops_ = dict(zip(st_["rv"]["fields"], st_["rv"]["ops"]))
+        for fld in ("max_write_buffer_size", "write_buffer_size", "max_send_queue"):
+            if fld not in ops_:
+                continue
+            from analysis.sym import split_eval as _se
+            alts = (_se(s_, i_, j_, lambda v_, o_=ops_[fld]: v_.op(o_)) if getattr(b_, "changed", False) else None) or [({}, s_.op(ops_[fld]))]
+            for _, v_ in alts:
+                txt = render(v_)
+                dflt = txt.endswith("." + fld) and "default()" in txt
+                unlimited = v_[0] == "const" and (v_[1] == (1 << 64) - 1 or str(v_[2] if len(v_) > 2 else "").endswith("MAX"))
+                roomy = False
+                if fld == "max_write_buffer_size":
+                    for x_ in walk(v_):
+                        if x_[0] == "call" and x_[1].rsplit("::", 1)[-1] in ("saturating_add", "checked_add", "wrapping_add") and len(x_[2]) == 2:
+                            a_, c_ = x_[2]
+                            if "assumed_peer_frame_limit" in render(a_) and const_val(c_) is not None and const_val(c_) >= 14:
+                                roomy = True
+                        if x_[0] == "bin" and x_[1] in ("Add", "AddWithOverflow") and "assumed_peer_frame_limit" in render(x_[2]) and const_val(x_[3]) is not None and const_val(x_[3]) >= 14:
+                            roomy = True
+                R.check(dflt or unlimited or roomy, "delivered-unchanged", b_.path, "the transport's outbound limits admit what the guard admits",
+                        "WebSocketConfig.%s is set to %s: tungstenite counts the frame header (up to 14 bytes) against it, so a message within the assumed limit that "
+                        "check_outbound let through can be refused by the transport and the connection closed" % (fld, txt[:140]), st_.get("span"), txt[:100])
+    R.floor("delivered-unchanged", n_cfg, 1, "WebSocketConfig constructions")
 
     # ---------------- oversize-rows (A11 / A5) ------------------------------------------------------------
     # the Err region of frame_outbound
